@@ -102,6 +102,7 @@ let parse_op (toks : string list) : op =
   | ["HTruncate"; h; n] -> HTruncate (ni h, zi n)
   | ["HClose"; h] -> HClose (ni h)
   | ["HReaddir"; h; n] -> HReaddir (ni h, zi n)
+  | ["HReadDir"; h; n] -> HReaddir (ni h, zi n)   (* the io/fs spelling ReadDir of the same listing *)
   | ["HReaddirnames"; h; n] -> HReaddirnames (ni h, zi n)
   | ["HStat"; h] -> HStat (ni h)
   | ["HName"; h] -> HName (ni h)
